@@ -101,6 +101,9 @@ def unaligned_group(repo: Repo, res: CheckResult, prop: str, ci, role: str, stri
 
 
 def run(repo: Repo, tier: str, res: CheckResult, seed: int = 0) -> None:
+    from .c20 import stateful_closures
+    stateful_closures(repo, res, "C06", "SIB.mode-closure-keeps-state",
+                      "the closure of ONE debug_trail mode carries state from call to call (and from an outer to a re-entrant inner call of a recursive type): what it accepts and returns depends on earlier input, its stateless siblings of the other modes do not, so the modes disagree")
     R = Resolver(repo)
     n_groups = 0
     for meth, role in (("provide_loader", "loader"), ("provide_dumper", "dumper")):
